@@ -70,7 +70,10 @@ def _shrink(v):
     inp = c.get('input') or {}
     exp = v.get('expected') or ''
     if (c.get('klass') or '').startswith('interop-') or '|' not in (v.get('impl') or '') or '|' not in exp:
-        return ('interop',), v
+        # one per demand of the interoperability line that is not met
+        a, b = (v.get('impl') or '').split('; '), exp.split('; ')
+        which = next((i for i in range(min(len(a), len(b))) if a[i] != b[i]), -1)
+        return ('interop', which, 'x'), v
     si, se = v['impl'].split('|')[:-1], exp.split('|')[:-1]
     k = next((i for i in range(min(len(si), len(se))) if si[i] != se[i]), None)
     if k is None:
@@ -102,7 +105,8 @@ def correspondence(ctx):
     corr = V.evaluate_case_file(ctx, out, IMPORTS)
     # one (shrunk) failing history per distinct failing prefix, shortest first
     seen, keep = set(), []
-    for key, v2 in sorted((_shrink(v) for v in corr.violations), key=lambda kv: len((kv[1]['case'].get('input') or {}).get('ops') or [])):
+    for key, v2 in sorted((_shrink(v) for v in corr.violations), key=lambda kv: (len((kv[1]['case'].get('input') or {}).get('ops') or []) if len(kv[0]) == 2 else
+                                            (0 if any(t in (kv[1].get('klass') or '') for t in ('rejected-content', 'verbatim')) else 1))):
         if key in seen or any(kk[0] == key[0] and key[1][:len(kk[1])] == kk[1] for kk in seen if len(kk) == 2 and len(key) == 2):
             continue
         seen.add(key)
